@@ -11,7 +11,7 @@ K_CONTEXT = [
 ]
 PROPS = {
     'C02': {'units': ['expr', 'lower', 'opt', 'fuse', 'fvalid', 'optm', 'run19', 'coef'], 'kani': K_ANALYSIS + [{'crate': 'p3-circuit', 'harness': 'c02_allocator_monotone'}], 'exclude': r'H_run_is_the_first_execution_of_the_op_list', 'only': {'coef': r'const_fold'}},
-    'C03': {'units': ['opt', 'fuse', 'fvalid', 'optm'], 'kani': K_ANALYSIS},
+    'C03': {'units': ['opt', 'fuse', 'fvalid', 'optm', 'cbconn'], 'kani': K_ANALYSIS},
     'C19': {'units': ['run19', 'pexec'], 'kani': K_CONTEXT, 'only': {'pexec': r'resolve_private_data|execute\[base_dispatch|RecomposeExecutor::execute'}},
     'C20': {'units': ['gad', 'quot', 'fri', 'periodic', 'fquery'], 'kani': [], 'only': {'fri': r'evaluate_polynomial|circuit_exp_by_constant|lemma_', 'fquery': r'final_query_point'}},
     'C07': {'units': ['fri', 'shape', 'fold', 'fchain', 'fquery', 'evpts', 'openin', 'onehot'], 'kani': [], 'only': {'shape': r'verify_fri_circuit'}, 'exclude': r'possible (bit shift|arithmetic)'},
@@ -21,7 +21,7 @@ PROPS = {
     'C10': {'units': ['sched', 'tracegen', 'ptrace', 'vrfy', 'extkind', 'order', 'prep', 'degpad'], 'kani': [], 'only': {'order': r'lane_resolution', 'prep': r'H_a_built_circuit_is_never_refused|a_free_slot_first_read_as_b'}},
     'C18': {'units': ['dsu', 'order', 'pphase', 'fvalid', 'iterord', 'hashord'], 'kani': []},
     'C14': {'units': ['pack', 'pack2', 'pack3', 'pubin'], 'kani': []},
-    'C12': {'units': ['bits', 'chal', 'coef', 'rcair', 'prep'], 'kani': [], 'only': {'chal': r'canonical_width', 'prep': r'operand_[ac]_takes_part_in_the_witness_bus'}},
+    'C12': {'units': ['bits', 'chal', 'coef', 'rcair', 'prep', 'cbconn'], 'kani': [], 'only': {'chal': r'canonical_width', 'prep': r'operand_[ac]_takes_part_in_the_witness_bus'}},
     'C15': {'units': ['shape', 'bshape', 'openin', 'hmerge', 'bprep', 'c15guard', 'pack'], 'kani': [], 'only': {'openin': r'per_matrix_shape_and_grouping|compute_single_reduced_opening|height_group', 'pack': r'OpenedValuesTargets::new'}},
     'C13': {'units': ['sym', 'symx', 'airlay'], 'kani': []},
     'C09': {'units': ['prep', 'mult', 'pread', 'pphase', 'ptrace', 'rcair'], 'kani': [], 'exclude': r'H_the_preprocessed_row_of_a_constant_commits_its_value|H_a_built_circuit_is_never_refused'},
